@@ -42,6 +42,7 @@ def LIST(t):
 
 LINT = LIST(INT)
 SPECROW = 'SpecRow'
+FILE = 'File'        # a binary file object being read: the bytes not yet consumed
 
 
 class Rec:
@@ -63,6 +64,8 @@ def lty(t):
         return '(' + ' × '.join(lty(x) for x in t[1]) + ')'
     if t == SPECROW:
         return 'SpecRow'
+    if t == FILE:
+        return '(List Int)'
     return t
 
 
@@ -402,9 +405,13 @@ class FnTranslator:
             name, rec = self.out_rec
             vals = [f'{name}_{k}' for k in rec.fields]
             return vals[0] if len(vals) == 1 else '(' + ', '.join(vals) + ')'
+        files = [p for p, t in self.unit.params if t == FILE]
         if e is None:
-            return '()'
-        v, t = self.expr(e)
+            v = '()'
+        else:
+            v, t = self.expr(e)
+        if files:
+            return '(' + ', '.join([v] + files) + ')'
         return v
 
     def stmt(self, s, ind):
@@ -434,6 +441,17 @@ class FnTranslator:
         if isinstance(s, ast.Assign):
             if len(s.targets) != 1:
                 raise Untranslatable('multiple targets')
+            if isinstance(s.value, ast.Call) and isinstance(s.value.func, ast.Name) and s.value.func.id == 'read_byte' \
+                    and len(s.value.args) == 1 and isinstance(s.value.args[0], ast.Name) \
+                    and self.env.get(s.value.args[0].id, (None, None))[1] == FILE:
+                # byte = read_byte(infile): one byte off the front of the unread input, EOFError at its end
+                f = s.value.args[0].id
+                if f not in self.muts:
+                    raise Untranslatable('file parameter is not mutable')
+                out.append(f'{ind}let r__ ← readByte {f}')
+                self.assign_target(s.targets[0], 'r__.1', INT, ind, out)
+                out.append(f'{ind}{f} := r__.2')
+                return out
             v, t = self.expr(s.value)
             self.assign_target(s.targets[0], v, t, ind, out)
             return out
@@ -530,6 +548,9 @@ class FnTranslator:
             tg = None
             if isinstance(s, ast.Assign):
                 tg = s.targets[0]
+                if isinstance(s.value, ast.Call) and isinstance(s.value.func, ast.Name) and s.value.func.id == 'read_byte' \
+                        and s.value.args and isinstance(s.value.args[0], ast.Name) and s.value.args[0].id not in names:
+                    names.append(s.value.args[0].id)       # reading consumes: the file state changes
             elif isinstance(s, ast.AugAssign):
                 tg = s.target
             elif isinstance(s, ast.Call) and isinstance(s.func, ast.Attribute) and s.func.attr in ('append', 'extend', 'reverse'):
@@ -596,6 +617,8 @@ class FnTranslator:
         tupty = stypes[0] if len(stypes) == 1 else '(' + ' × '.join(stypes) + ')'
         aux_name = f'{self.unit.lean_name}.{key}'
         rty = lty(self.unit.ret) if self.unit.ret not in (None, NONE) else 'Unit'
+        if any(t == FILE for _, t in self.unit.params):
+            rty = '(' + ' × '.join([rty] + ['(List Int)' for _, t in self.unit.params if t == FILE]) + ')'
         if returns:
             resty = f'(Sum {rty} {tupty})'      # inl: the function returned; inr: the loop ended
         else:
@@ -620,6 +643,12 @@ class FnTranslator:
         self.aux.append('\n'.join(lines))
         out = []
         call = f'{aux_name} {fargs} ({fuel}) {" ".join(state)}'
+        infinite = isinstance(s.test, ast.Constant) and s.test.value is True
+        if returns and infinite:
+            out.append(f'{ind}match (← {call}) with')
+            out.append(f'{ind}| Sum.inl r => return r')
+            out.append(f'{ind}| Sum.inr _ => throw Err.Hang')
+            return out
         if returns:
             out.append(f'{ind}match (← {call}) with')
             out.append(f'{ind}| Sum.inl r => return r')
@@ -648,6 +677,9 @@ class FnTranslator:
             return True
         if isinstance(last, ast.If):
             return bool(last.orelse) and self.terminates(last.body) and self.terminates(last.orelse)
+        if isinstance(last, ast.While) and isinstance(last.test, ast.Constant) and last.test.value is True and \
+                not any(isinstance(x, ast.Break) for x in ast.walk(last)):
+            return True
         return False
 
     # ---------- whole function ----------------------------------------------
@@ -686,7 +718,7 @@ class FnTranslator:
             self.muts.append('self')
         assigned = self.assigned_names(fn.body)
         for p, t in u.params:
-            if not isinstance(t, Rec) and p in assigned:
+            if not isinstance(t, Rec) and (p in assigned or t == FILE):
                 body.append(f'  let mut {p} := {p}')
                 self.muts.append(p)
         if self.out_rec is not None:
@@ -705,6 +737,8 @@ class FnTranslator:
             rty = ts[0] if len(ts) == 1 else '(' + ' × '.join(ts) + ')'
         else:
             rty = lty(u.ret) if u.ret not in (None,) else 'Unit'
+            if any(t == FILE for _, t in u.params):
+                rty = '(' + ' × '.join([rty] + ['(List Int)' for _, t in u.params if t == FILE]) + ')'
         head = f'def {u.lean_name} {" ".join(params)} : Except Err {rty} := do'
         src = textwrap.indent(ast.unparse(fn), '  -- ')
         return '\n\n'.join(self.aux + [f'/- {u.file}: {("class " + u.cls + ", ") if u.cls else ""}{u.name}\n{src}\n-/\n' + head + '\n' + '\n'.join(body)])
@@ -845,6 +879,7 @@ def units():
     M = 'mido/midifiles/meta.py'
     U.append(Unit(M, 'encode_variable_int', [('value', INT)], LINT, fuel={'loop1': 'value.toNat'}))
     U.append(Unit(M, 'decode_variable_int', [('value', LINT)], INT))
+    U.append(Unit('mido/midifiles/midifiles.py', 'read_variable_int', [('infile', FILE)], INT, fuel={'loop1': 'infile.length + 1'}))
     U.append(Unit(M, 'check_int', [('value', INT), ('low', INT), ('high', INT)], NONE))
 
     def meta(cls, attrs, dec_extra=None, checks=True):
